@@ -1,12 +1,207 @@
 /-
-  Oracle commands for C18 (stub: owns no commands yet).
--/
-import Oracle.Util
-namespace Oracle.C18
-open Oracle
+  Oracle commands for C18 (sampler).  Floats travel as decimal IEEE-754 single bit patterns
+  (`nan` for any NaN).  `F*` = count-prefixed list of floats, `E` = count-prefixed list of
+  `<argbits> <expbits>` pairs: the values `float32(math.Exp(float64(arg)))` Go produced.
 
-def handle (toks : List String) : Option String :=
-  match toks with
+    greedy F*                                  -> <id> | panic:<site>
+    topk <k> F*                                -> <ids,> c=<0|1>     (c: IsTopK contract of the output)
+    temp <t> F*                                -> <bits,>
+    softmax F* E                               -> <bits,>
+    topp <p> F*                                -> <kept>
+    minp <p> F*                                -> <kept> | panic:<site>
+    pick <r> F*                                -> <idx-id> <cumbits> | err:nan | panic:<site>
+    newsampler <t> <k> <p> <mp>                -> <t> <k> <p> <mp>
+    rng <seed> <n>                             -> <24-bit numerators,>
+    sample <fix> <pre> <t> <k> <p> <mp> <r> <n> {<id> <bits>}* E
+         -> ok <id> kt=.. kp=.. km=.. c=.. | err:<class> ... | panic:<site> ...
+-/
+import OllamaVerif.Model.Sampler
+import Oracle.Util
+import Std.Data.HashMap
+namespace Oracle.C18
+open OllamaVerif OllamaVerif.Sampler Oracle
+
+def nanF : Float32 := Float32.ofBits 0x7FC00000
+
+def pF : TP Float32 := do
+  let t ← tok
+  if t == "nan" then pure nanF else
+  match t.toNat? with
+  | some n => pure (Float32.ofBits n.toUInt32)
+  | none => failure
+
+def showF (x : Float32) : String := if x.isNaN then "nan" else toString x.toBits.toNat
+
+def key (x : Float32) : UInt32 := if x.isNaN then 0x7FC00000 else x.toBits
+
+def pExp : TP (Std.HashMap UInt32 Float32) := do
+  let n ← nat
+  let mut m : Std.HashMap UInt32 Float32 := {}
+  for _ in [0:n] do
+    let a ← pF
+    let e ← pF
+    m := m.insert (key a) e
+  pure m
+
+/-- IEEE single precision; `exp` is the table of values Go computed (NaN if absent) -/
+def f32Ops (tbl : Std.HashMap UInt32 Float32) : Ops Float32 where
+  lt a b := decide (a < b)
+  le a b := decide (a ≤ b)
+  beq a b := a == b
+  isNaN a := a.isNaN
+  add a b := a + b
+  sub a b := a - b
+  mul a b := a * b
+  div a b := a / b
+  exp a := if a.isNaN then nanF else (tbl[key a]?).getD nanF
+  zero := Float32.ofBits 0
+  one := Float32.ofBits 0x3F800000
+  negInf := Float32.ofBits 0xFF800000
+  posInf := Float32.ofBits 0x7F800000
+  tempFloor := Float32.ofBits 0x33D6BF95   -- float32(1e-7)
+
+def noExp : Ops Float32 := f32Ops {}
+
+def toks (vs : List Float32) : List (Tok Float32) := mkTokens vs
+
+def showErr : Err → String
+  | .noLogits => "err:nologits"
+  | .nanSum => "err:nan"
+  | .allNegInf => "err:allneginf"
+  | .panic s => s!"panic:{s}"
+
+def showIds (l : List (Tok Float32)) : String := joinWith "," (l.map fun t => toString t.id)
+def showVals (l : List Float32) : String := joinWith "," (l.map showF)
+
+/-- decision procedure for the `IsTopK` contract: `out` is descending, has the right length, is a
+    sub-multiset of `ts` (by id and bit pattern) and no left-over element exceeds a kept one -/
+def removeFirst (t : Tok Float32) : List (Tok Float32) → Option (List (Tok Float32))
+  | [] => none
+  | x :: xs => if x.id == t.id && key x.val == key t.val then some xs
+               else (removeFirst t xs).map (x :: ·)
+
+def isTopKB (o : Ops Float32) (k : Int) (ts out : List (Tok Float32)) : Bool :=
+  let want := if k ≥ ts.length ∨ k ≤ 0 then ts.length else k.toNat
+  out.length == want && isDesc o (out.map (·.val)) &&
+  (match out.foldl (fun acc t => acc.bind (removeFirst t)) (some ts) with
+   | none => false
+   | some rest =>
+     match out.getLast? with
+     | none => rest.isEmpty
+     | some m => rest.all (fun x => !o.lt m.val x.val))
+
+def pTokList : TP (List (Tok Float32)) := do
+  let n ← nat
+  rep n (do let id ← nat; let v ← pF; pure (⟨id, v⟩ : Tok Float32))
+
+/-- the stage-by-stage summary of one `sample` call -/
+def sampleSummary (o : Ops Float32) (fix pre : Bool) (P : Params Float32) (r : Float32)
+    (ts : List (Tok Float32)) : String :=
+  if ts.isEmpty then "err:nologits" else
+  if o.beq P.temp o.zero then
+    match greedy o ts with
+    | .ok t => s!"ok {t.id} c=greedy"
+    | .error e => showErr e ++ " c=greedy"
+  else
+    let L := if pre then ts else topK o P.topK ts
+    match (if fix then shiftMax o L else .ok L) with
+    | .error e => showErr e ++ s!" kt={L.length}"
+    | .ok L1 =>
+    let S := temperature o P.temp L1
+    let probs := softmax o S
+    let fp := topP o P.topP probs
+    let res := afterTopK o fix P r L
+    let km := match minP o P.minP fp with | .ok f => toString f.length | .error _ => "panic"
+    let sv := S.map (·.val)
+    let pv := probs.map (·.val)
+    let c :=
+      if !guardOK o sv then "guard" else
+      let flags :=
+        (if scaleOK o (L1.map (·.val)) sv then [] else ["scale"]) ++
+        (if softmaxOK o sv pv then [] else ["softmax"]) ++
+        (match minP o P.minP fp with
+         | .ok f =>
+           let C := (cumsum o o.zero f).map (·.val)
+           (if f.isEmpty then ["empty"] else []) ++
+           (if isAsc o C then [] else ["cum"]) ++
+           (match C.getLast? with
+            | some tot => if o.le (o.mul r tot) tot then [] else ["r"]
+            | none => [])
+         | .error _ => ["empty"])
+      if flags.isEmpty then "ok" else "bad:" ++ joinWith "," flags
+    let head := match res with
+      | .ok t => s!"ok {t.id}"
+      | .error e => showErr e
+    s!"{head} kt={L.length} kp={fp.length} km={km} c={c}"
+
+def handle (toks' : List String) : Option String :=
+  match toks' with
+  | "greedy" :: rest =>
+    runTP (do
+      let vs ← listOf pF
+      pure (match greedy noExp (toks vs) with
+        | .ok t => toString t.id
+        | .error e => showErr e)) rest
+  | "topk" :: rest =>
+    runTP (do
+      let k ← int
+      let vs ← listOf pF
+      let out := topK noExp k (toks vs)
+      pure s!"{showIds out} c={if isTopKB noExp k (toks vs) out then 1 else 0}") rest
+  | "temp" :: rest =>
+    runTP (do
+      let t ← pF
+      let vs ← listOf pF
+      pure (showVals (scaleVals noExp t vs))) rest
+  | "softmax" :: rest =>
+    runTP (do
+      let vs ← listOf pF
+      let tbl ← pExp
+      pure (showVals (softmaxVals (f32Ops tbl) vs))) rest
+  | "topp" :: rest =>
+    runTP (do
+      let p ← pF
+      let vs ← listOf pF
+      pure (toString (topP noExp p (toks vs)).length)) rest
+  | "minp" :: rest =>
+    runTP (do
+      let p ← pF
+      let vs ← listOf pF
+      pure (match minP noExp p (toks vs) with
+        | .ok f => toString f.length
+        | .error e => showErr e)) rest
+  | "pick" :: rest =>
+    runTP (do
+      let r ← pF
+      let vs ← listOf pF
+      pure (match pick noExp r (toks vs) with
+        | .ok t => s!"{t.id} {showF t.val}"
+        | .error e => showErr e)) rest
+  | "newsampler" :: rest =>
+    runTP (do
+      let t ← pF
+      let k ← int
+      let p ← pF
+      let mp ← pF
+      let P := newParams noExp t k p mp
+      pure s!"{showF P.temp} {P.topK} {showF P.topP} {showF P.minP}") rest
+  | "rng" :: rest =>
+    runTP (do
+      let seed ← int
+      let n ← nat
+      pure (joinWith "," ((pcgStream n (pcgOfSeed seed)).map toString))) rest
+  | "sample" :: rest =>
+    runTP (do
+      let fix ← nat
+      let pre ← nat
+      let t ← pF
+      let k ← int
+      let p ← pF
+      let mp ← pF
+      let r ← pF
+      let ts ← pTokList
+      let tbl ← pExp
+      pure (sampleSummary (f32Ops tbl) (fix != 0) (pre != 0) ⟨t, k, p, mp⟩ r ts)) rest
   | _ => none
 
 end Oracle.C18
